@@ -35,6 +35,23 @@ struct Exp {
     len: usize,
 }
 impl Exp {
+    /// the rendering of an f64 sample value: injective marker under Kani (where `Display` is stubbed by
+    /// the same marker), std's real rendering in native replay
+    fn num_f64(&mut self, v: f64) {
+        #[cfg(kani)]
+        self.hex16(v.to_bits());
+        #[cfg(not(kani))]
+        self.lit(&v.to_string());
+    }
+    fn num_i64(&mut self, v: i64) {
+        #[cfg(kani)]
+        {
+            self.push(b't');
+            self.hex16(v as u64);
+        }
+        #[cfg(not(kani))]
+        self.lit(&v.to_string());
+    }
     fn new() -> Exp { Exp { data: [0; 48], len: 0 } }
     fn push(&mut self, b: u8) { self.data[self.len] = b; self.len += 1; }
     fn lit(&mut self, s: &str) { let b = s.as_bytes(); let mut i = 0; while i < b.len() { self.push(b[i]); i += 1; } }
@@ -80,7 +97,7 @@ pub fn naive_first(v: &str, q: bool) -> Option<usize> {
 }
 pub fn f64_display_marker(v: &f64, f: &mut std::fmt::Formatter<'_>) -> std::fmt::Result {
     let mut e = Exp::new();
-    e.hex16(v.to_bits());
+    e.num_f64(v);
     f.write_str(unsafe { std::str::from_utf8_unchecked(&e.data[..16]) })
 }
 pub fn i64_display_marker(v: &i64, f: &mut std::fmt::Formatter<'_>) -> std::fmt::Result {
@@ -169,8 +186,8 @@ pub fn c04_write_sample_layout() {
     e.lit("n_bucket{a=\""); e.escaped(&[v1], true);
     e.lit("\",b=\""); e.escaped(&[v2], true);
     e.lit("\",le=\""); e.escaped(&[v3], true);
-    e.lit("\"} "); e.hex16(value.to_bits());
-    if ts != 0 { e.lit(" t"); e.hex16(ts as u64); }
+    e.lit("\"} "); e.num_f64(value);
+    if ts != 0 { e.lit(" "); e.num_i64(ts); }
     e.push(b'\n');
     vcover!(ts == 0, "c04.sample: zero timestamp omitted");
     vcover!(v1 == b'\n' && v3 == b'"', "c04.sample: newline and quote in label values");
@@ -188,7 +205,7 @@ pub fn c04_write_sample_no_labels() {
     let mut w = Buf::new();
     assert!(write_sample(&mut w, "n", None, &m, None, value).is_ok());
     let mut e = Exp::new();
-    e.lit("n "); e.hex16(value.to_bits()); e.push(b'\n');
+    e.lit("n "); e.num_f64(value); e.push(b'\n');
     assert!(same(&w.data, w.len, &e), "C04 sample line without labels");
     std::mem::forget(m);
 }
@@ -226,10 +243,10 @@ pub fn c04_encode_histogram_family_layout() {
     assert!(r.is_ok());
     let mut e = Exp2::new();
     e.lit("P\n# HELP h x\n# TYPE h histogram\n");
-    e.lit("h_bucket{l=\"v\",le=\""); e.hex16(bound.to_bits()); e.lit("\"} "); e.hex16((cum as f64).to_bits()); e.lit("\n");
-    e.lit("h_bucket{l=\"v\",le=\"+Inf\"} "); e.hex16((cnt as f64).to_bits()); e.lit("\n");
-    e.lit("h_sum{l=\"v\"} "); e.hex16(sum.to_bits()); e.lit("\n");
-    e.lit("h_count{l=\"v\"} "); e.hex16((cnt as f64).to_bits()); e.lit("\n");
+    e.lit("h_bucket{l=\"v\",le=\""); e.num_f64(bound); e.lit("\"} "); e.num_f64(cum as f64); e.lit("\n");
+    e.lit("h_bucket{l=\"v\",le=\"+Inf\"} "); e.num_f64(cnt as f64); e.lit("\n");
+    e.lit("h_sum{l=\"v\"} "); e.num_f64(sum); e.lit("\n");
+    e.lit("h_count{l=\"v\"} "); e.num_f64(cnt as f64); e.lit("\n");
     assert!(e.matches(out.as_bytes()), "C04 histogram: HELP, TYPE, cumulative buckets, +Inf bucket equal to the count, _sum, _count; output only appended");
     std::mem::forget(out);
 }
@@ -269,8 +286,8 @@ pub fn c04_encode_two_families_order_and_agreement() {
     let mut out = String::new();
     assert!(TextEncoder::new().encode_utf8(&fams, &mut out).is_ok());
     let mut e = Exp2::new();
-    e.lit("# TYPE b gauge\nb "); e.hex16(gv.to_bits()); e.lit("\n");
-    e.lit("# HELP a y\n# TYPE a counter\na "); e.hex16(cv.to_bits()); e.lit(" t"); e.hex16(ts as u64); e.lit("\n");
+    e.lit("# TYPE b gauge\nb "); e.num_f64(gv); e.lit("\n");
+    e.lit("# HELP a y\n# TYPE a counter\na "); e.num_f64(cv); e.lit(" "); e.num_i64(ts); e.lit("\n");
     assert!(e.matches(out.as_bytes()), "C04 families in order, one header block each, empty help omitted, timestamp kept");
     let mut w: Vec<u8> = Vec::with_capacity(128);
     assert!(crate::encoder::Encoder::encode(&TextEncoder::new(), &fams, &mut w).is_ok());
@@ -304,8 +321,8 @@ pub fn c04_encode_summary_family_layout() {
     let mut out = String::new();
     assert!(TextEncoder::new().encode_utf8(&[mf], &mut out).is_ok());
     let mut e = Exp2::new();
-    e.lit("# TYPE s summary\ns{quantile=\""); e.hex16(q.to_bits()); e.lit("\"} "); e.hex16(v.to_bits()); e.lit("\n");
-    e.lit("s_sum "); e.hex16(sum.to_bits()); e.lit("\ns_count "); e.hex16((cnt as f64).to_bits()); e.lit("\n");
+    e.lit("# TYPE s summary\ns{quantile=\""); e.num_f64(q); e.lit("\"} "); e.num_f64(v); e.lit("\n");
+    e.lit("s_sum "); e.num_f64(sum); e.lit("\ns_count "); e.num_f64(cnt as f64); e.lit("\n");
     assert!(e.matches(out.as_bytes()), "C04 summary: quantile lines, _sum, _count");
     std::mem::forget(out);
 }
@@ -316,6 +333,23 @@ struct Exp2 {
     len: usize,
 }
 impl Exp2 {
+    /// the rendering of an f64 sample value: injective marker under Kani (where `Display` is stubbed by
+    /// the same marker), std's real rendering in native replay
+    fn num_f64(&mut self, v: f64) {
+        #[cfg(kani)]
+        self.hex16(v.to_bits());
+        #[cfg(not(kani))]
+        self.lit(&v.to_string());
+    }
+    fn num_i64(&mut self, v: i64) {
+        #[cfg(kani)]
+        {
+            self.push(b't');
+            self.hex16(v as u64);
+        }
+        #[cfg(not(kani))]
+        self.lit(&v.to_string());
+    }
     fn new() -> Exp2 { Exp2 { data: [0; 200], len: 0 } }
     fn push(&mut self, b: u8) { self.data[self.len] = b; self.len += 1; }
     fn lit(&mut self, s: &str) { let b = s.as_bytes(); let mut i = 0; while i < b.len() { self.push(b[i]); i += 1; } }
